@@ -811,6 +811,7 @@ function inbucket.before.mail_from_accepted(session)
 end
 function inbucket.before.rcpt_to_accepted(session)
   local last = session.to[#session.to]
+  if string.find(last.address, "boom", 1, true) then error("boom") end
   if string.find(last.address, "echo", 1, true) then return smtp.deny(551, "echo " .. session.from.address .. " " .. last.address) end
   return nil
 end
@@ -941,6 +942,14 @@ def c17(run, args):
             me = "echo%d.%d" % (g, k)
             conc = Concretiser(rng, naming="local", policy=POLICIES[0], max_rcpt=3)
             steps = [conc.step({"c": "helo", "verb": "EHLO", "arg": True})]
+            # every session first makes the script fail once (an error raised in the recipient hook counts as no answer: the
+            # reject policy then refuses the recipient); a failure must not leave anything behind that two later sessions share
+            steps.append(conc.line(dict(c="mail", syntax=True, sizeparse=True, addrok=True, sender={"addr": "<first%d.%d@origin.example>" % (g, k)},
+                                        domchars=list("origin.example")), "MAIL FROM:<first%d.%d@origin.example>" % (g, k)))
+            for boom in range(2):
+                steps.append(conc.line(dict(c="rcpt", valid=True, dom="reject.example", addr="<boom%d.%d@reject.example>" % (g, k), mbox="boom"),
+                                       "RCPT TO:<boom%d.%d@reject.example>" % (g, k)))
+            steps.append(conc.step({"c": "rset"}))
             for rep in range(6):
                 deny = {"action": "deny", "code": 550, "text": "echo %s@origin.example" % me}
                 steps.append(conc.line(dict(c="mail", syntax=True, sizeparse=True, addrok=True, sender={"addr": "<%s@origin.example>" % me},
